@@ -57,23 +57,35 @@ def rules(ctx: Ctx) -> None:
                 lookups.append((f, n))
     ctx.floor("provider look-ups outside the provider classes", len(lookups), 4)
 
-    # whitelisted guard atoms per look-up site (function -> predicate on fact text)
+    # whitelisted guard atoms per look-up site, in canonical (rename-invariant) form: local names are replaced by their origin
+    from ..canon import canon, canon_text
+
+    ALLOWED = {
+        "SubQueryLineageHolder.expand_wildcard": {
+            "<.parent>", "<_get_target_table()>", "self._get_target_table()", "<loop:.write_columns>.raw_name == '*'", "<loop:get_source_columns()>.parent",
+            "isinstance(<.parent>, SubQuery)", "isinstance(<.parent>, Table)",
+        },
+        "SQLLineageHolder._build_digraph": {
+            "isinstance(<loop:.parent_candidates>, Table)", "str(<loop:.parent_candidates>.schema) != Schema.unknown", "len(<[]>) == 0",
+        },
+        "SourceHandlerMixin.end_of_query_cleanup": {
+            "<getattr()>", "getattr(self, 'metadata_provider', None)", "SQLLineageConfig.LATERAL_COLUMN_ALIAS_REFERENCE", "isinstance(<loop:.parent_candidates>, Table)",
+            "len(<param:1>.write) > 1", "<param:1>.write",
+        },
+        "CreateInsertExtractor.extract": {
+            "<False|True>", "<loop:list_child_segments()>.type in ['table_reference', 'object_reference']", "<param:1>.type == 'insert_statement'", "isinstance(<of()>, Table)",
+        },
+    }
+
     def allowed_fact(fn: Fn, txt: str, recv: str) -> bool:
         if txt in (recv, f"bool({recv})"):
             return True
         owner = f"{fn.cls.name}.{fn.name}" if fn.cls else fn.name
-        if owner == "CreateInsertExtractor.extract":
-            return (txt.startswith("isinstance(write_obj") or "statement.type" in txt or txt in ("tgt_flag",) or txt.startswith("segment.type") or "segment.type" in txt
-                    or txt.startswith("any(") or txt.startswith("(subquery_segments") or txt == "subquery_segments" or "raw_upper" in txt)
-        if owner == "SubQueryLineageHolder.expand_wildcard":
-            return (txt in ("tgt_table", "source_table", "(tgt_table := self._get_target_table())", "(source_table := src_wildcard.parent)") or "raw_name" in txt
-                    or txt.startswith("isinstance(source_table") or "_get_target_table" in txt or "src_wildcard.parent" in txt)
-        if owner == "SQLLineageHolder._build_digraph":
-            return txt.startswith("len(src_cols)") or txt.startswith("isinstance(parent") or "Schema.unknown" in txt
-        if owner == "SourceHandlerMixin.end_of_query_cleanup":
-            return ("LATERAL_COLUMN_ALIAS_REFERENCE" in txt or txt.startswith("holder.write") or txt.startswith("len(holder.write)") or txt.startswith("isinstance(parent_candidate")
-                    or "getattr(self" in txt)
-        return False
+        c = canon_text(prog, fn, txt)
+        crecv = canon_text(prog, fn, recv)
+        if c in (crecv, f"bool({crecv})"):
+            return True
+        return c in ALLOWED.get(owner, set())
 
     tainted_names: dict[str, set[str]] = {}
     for f, call in lookups:
